@@ -103,3 +103,26 @@ fn c10_boxed_divsteps_count_covers_both_operands() {
     kani::cover!(gb > fb && fb > 62);
     core::mem::forget((f, g));
 }
+
+//@ prop=C10 tier=thorough profile=k64 funcs="safegcd::boxed::divsteps (slice: the loop bound expression),safegcd::iterations,BoxedUnsatInt::bits" bound="6 unsaturated limbs (the work width of a 256-bit operand): every pair of non-negative well-formed f_0, g: loop bound >= the Bernstein-Yang count for max(bits(f_0), bits(g)); the divstep loop body itself is not decided" free_bits=744 assumes="cut point: f_0, g well-formed (limbs < 2^62) and non-negative"
+#[kani::proof]
+#[kani::unwind(8)]
+fn c10_boxed_divsteps_count_covers_both_operands_6() {
+    let fl: [u64; 6] = kani::any();
+    let gl: [u64; 6] = kani::any();
+    let mut i = 0;
+    while i < 6 {
+        kani::assume(fl[i] <= M && gl[i] <= M);
+        i += 1;
+    }
+    kani::assume(fl[5] >> 61 == 0 && gl[5] >> 61 == 0);
+    let f = BoxedUnsatInt(Box::new(fl));
+    let mut g = BoxedUnsatInt(Box::new(gl));
+    let (fb, gb) = (f.bits(), g.bits());
+    let m = super::__verif_boxed_divsteps_count(&f, &mut g) as u64;
+    let d = if fb > gb { fb } else { gb } as u64;
+    let num = 49 * d + if d < 46 { 80 } else { 57 };
+    assert!(17 * (m + 1) > num);
+    kani::cover!(gb > fb && fb > 256);
+    core::mem::forget((f, g));
+}
